@@ -1659,8 +1659,39 @@ def removal_planned_in_order(ctx, p):
                     for pl in pls:
                         es = [e for e in pl[1:] if isinstance(e, str)]
                         if any(x == '@DereferenceChildren' and y == '.NodeChange.3' for x, y in zip(es, es[1:])):
-                            return True
+                            return pos_value_clean(b)
             return False
+        def pos_value_clean(b):
+            # the value made from the position is the position itself, at most clamped to the length of the keyed change list: every
+            # integer that flows into it is the position field, `changes.len()`, or a min/clamp of those - no constant, no captured number
+            bad = []
+            roots = [op_place(st['r']['a'][0]) for blk in b.blocks for st in blk['s'] if st['k'] == 'assign' and st['r']['k'] == 'agg'
+                     and st['r']['ak'] == 'Adt:std::option::Option::Some' and st['r']['a'] and op_place(st['r']['a'][0]) is not None]
+            roots += [[0]] if 'usize' == str(b.locals[0]) else []
+            sl = backward_slice(b, roots) if roots else None
+            if sl is None or '.NodeChange.3' not in sl.fields:
+                return True     # the position is not turned into a bound here (it is only passed on)
+            if any(c.get('o') == 'k' or 'v' in c for c in sl.consts if str(c.get('ty', 'usize')) in ('usize', 'u64', 'u32')):
+                bad.append('constant')
+            for l in sl.locals:
+                if str(b.locals[l]).lstrip('&') not in ('usize',):
+                    continue
+                for d in b.defs().get(l, []):
+                    if d[2] == 'assign':
+                        r = d[3]['r']
+                        pls = ([r.get('p')] if r.get('p') else []) + [op_place(a_) for a_ in r.get('a', []) if op_place(a_)]
+                        for pl in pls:
+                            es = [e for e in pl[1:] if isinstance(e, str)]
+                            if es and es[-1].startswith('.^'):
+                                bad.append('captured number %s' % es[-1])
+                        if r['k'] == 'use' and r['a'] and op_place(r['a'][0]) is None:
+                            bad.append('constant operand')
+                    elif d[2] == 'call' and not call_matches(d[3], ['re:::len$', 're:cmp::Ord::(min|clamp)$', 're:::min$', 're:Deref', 're:::clone$']):
+                        bad.append('call %s' % call_names(d[3])[:1])
+            for bi_, t_ in b.calls():
+                if call_matches(t_, ['re:cmp::Ord::(min|clamp|max)$']) and any(op_place(a_) is None for a_ in t_['a']):
+                    bad.append('constant clamp')
+            return not bad
         def reads_pos(names, depth=3, seen=None):
             seen = set() if seen is None else seen
             for n in names:
